@@ -21,6 +21,8 @@ pub enum Placement {
     InVec,
     /// Option<REC>
     InOption,
+    /// the record is the body of a struct variant of an enum (evolution annotations on the variant)
+    InVariant,
 }
 
 #[derive(Debug, Clone, Serialize, Deserialize)]
@@ -42,6 +44,22 @@ pub fn wrap(p: Placement, t: Ty) -> Ty {
         Placement::Between => Ty::Tuple(vec![Ty::U16, t, Ty::Str]),
         Placement::InVec => Ty::Vec(Arc::new(t)),
         Placement::InOption => Ty::Option(Arc::new(t)),
+        Placement::InVariant => match &t {
+            Ty::Adt(d) => match &d.body {
+                vmodel::DeclBody::Struct(r) => Ty::Adt(Arc::new(vmodel::Decl {
+                    name: format!("{}Holder", d.name),
+                    body: vmodel::DeclBody::Enum {
+                        sorted: false,
+                        variants: vec![
+                            vmodel::Variant { name: "Empty".into(), shape: vmodel::Shape::Unit, transient: false, record: Record { fields: vec![], steps: vec![] } },
+                            vmodel::Variant { name: "Rec".into(), shape: vmodel::Shape::Struct, transient: false, record: r.clone() },
+                        ],
+                    },
+                })),
+                _ => t,
+            },
+            _ => t,
+        },
     }
 }
 
@@ -91,7 +109,7 @@ pub fn compiled_evo_strategy(h: usize) -> BoxedStrategy<EvoCase> {
 }
 
 pub fn evo_case_strategy(max_init: usize, max_steps: usize) -> BoxedStrategy<EvoCase> {
-    (history_spec_strategy(max_init, max_steps), any::<u16>(), any::<u16>(), prop::sample::select(vec![Placement::Top, Placement::Top, Placement::Between, Placement::Between, Placement::InVec, Placement::InOption]))
+    (history_spec_strategy(max_init, max_steps), any::<u16>(), any::<u16>(), prop::sample::select(vec![Placement::Top, Placement::Top, Placement::Between, Placement::Between, Placement::InVec, Placement::InOption, Placement::InVariant, Placement::InVariant]))
         .prop_flat_map(|(spec, ws, rs, placement)| {
             let versions = versions_of(&spec);
             let w = pick(ws, versions.len());
@@ -125,6 +143,11 @@ fn expected_wrapped(p: Placement, versions: &[Record], w: usize, r: usize, v: &V
         }
         (Placement::InOption, Val::None) => Ok(Val::None),
         (Placement::InOption, Val::Some(x)) => Ok(Val::some(one(x)?)),
+        (Placement::InVariant, Val::Variant(0, _)) => Ok(v.clone()),
+        (Placement::InVariant, Val::Variant(1, fs)) => match one(&Val::Rec(fs.clone()))? {
+            Val::Rec(out) => Ok(Val::Variant(1, out)),
+            other => Ok(other),
+        },
         (p, v) => panic!("expected_wrapped {p:?} {v:?}"),
     }
 }
@@ -222,7 +245,7 @@ pub fn run_c03(cx: &Cx) -> PropResult {
     let mut r = PropResult::new(
         acc,
         "exploration",
-        "E3 cases = (legal evolution history H built by construction from a generated spec: 0-6 initial fields incl. transient ones, up to 8 (every 4th shard: 40) steps of FieldAdded at a random declaration position / FieldMadeOptional / FieldRemoved / FieldMadeTransient; writer version w; reader version r; value of version w; placement: top level, between two sibling fields of a tuple, element of a Vec, inside Option). Both versions are driven through AdtSerializer / AdtDeserializer exactly as the derive expansion does (E3; validated against the real expansion by C02). Oracle: expected(H, w, r, v) computed on the logical level from the documentation (default / wrap / unwrap / absent-if-optional / the two specific errors with the field name, first error in declaration order), siblings intact and the whole buffer consumed. Non-trivial = w != r; classes = reader branch x (w<r, w=r, w>r) x placement. E2 cases: the same check on all versions of the 36 histories of the compiled batch (types H{h}V{i} generated by vgen and compiled with the real derive macro), all (w, r) pairs; histories with DeduplicatedString fields only with w = r.",
+        "E3 cases = (legal evolution history H built by construction from a generated spec: 0-6 initial fields incl. transient ones, up to 8 (every 4th shard: 40) steps of FieldAdded at a random declaration position / FieldMadeOptional / FieldRemoved / FieldMadeTransient; writer version w; reader version r; value of version w; placement: top level, between two sibling fields of a tuple, element of a Vec, inside Option, body of a struct variant of an enum). Both versions are driven through AdtSerializer / AdtDeserializer exactly as the derive expansion does (E3; validated against the real expansion by C02). Oracle: expected(H, w, r, v) computed on the logical level from the documentation (default / wrap / unwrap / absent-if-optional / the two specific errors with the field name, first error in declaration order), siblings intact and the whole buffer consumed. Non-trivial = w != r; classes = reader branch x (w<r, w=r, w>r) x placement. E2 cases: the same check on all versions of the 36 histories of the compiled batch (types H{h}V{i} generated by vgen and compiled with the real derive macro), all (w, r) pairs; histories with DeduplicatedString fields only with w = r.",
     );
     r.assumptions = vec![
         "DESIGN section 9: embedded placement with stored version 0 and a removed chunk-0 field is outside the quantifier (counted under excluded_by_construction)".into(),
